@@ -513,6 +513,12 @@ func c19Geometry(c *run.Ctx, idx uint64) {
 		for i := range rz.Calls {
 			if rz.Calls[i].K == rec.RDraw {
 				p = rz.Calls[i].Paint
+				// the paint's pixel space starts at the rectangle's corner: the geometry
+				// judged below is where the gradient lands only if Draw aligns them so
+				if rz.Calls[i].SP != (image.Point{}) || rz.Calls[i].R != rect {
+					fail("gradient-drawn-misaligned-with-the-rectangle", map[string]interface{}{"draw": rz.Calls[i].String()})
+					return
+				}
 			}
 		}
 		if p == nil || p.Kind != 1 {
